@@ -36,7 +36,7 @@ namespace hv {
 using namespace ephemeralnet;
 namespace fs = std::filesystem;
 
-const std::string kToken = "S3cret-Tok3n";
+std::string kToken = "S3cret-Tok3n";   // reset toklen=N replaces it by a token of N characters
 
 // values the framing checks inject into daemon-side strings (index = script argument)
 const std::vector<std::string> kValues = {"", "x", "a\nb", "a\n", "k:v", "\n", "a\\nb", "\\", "x\ry", "a\nCODE:EVIL",
@@ -116,6 +116,8 @@ void start_daemon(const ev::Cmd& c) {
     g_d = std::make_unique<Daemon>();
     Config cfg = base_config();
     g_d->tokcfg = c.i("token", 0) != 0;
+    kToken = "S3cret-Tok3n";
+    if (c.i("toklen", 0) > 0) { kToken.clear(); for (long i = 0; i < c.i("toklen"); ++i) kToken.push_back(static_cast<char>('A' + (i * 7 + i / 26) % 26 + ((i % 3) ? 32 : 0))); }
     if (g_d->tokcfg) cfg.control_token = kToken;
     cfg.store_pow_difficulty = static_cast<std::uint8_t>(c.i("pow", 0));
     cfg.control_stream_max_bytes = static_cast<std::size_t>(c.i("cap", 64));
@@ -233,8 +235,13 @@ std::string token_variant(const std::string& kind, long tv) {
     const std::string& t = kToken;
     if (kind == "exact") return t;
     if (kind == "wrong") { const char* w[] = {"WrongToken-00", "S3cret-Tok3m", "0", "s3cret"}; return w[tv % 4]; }
-    if (kind == "prefix") { const std::string p[] = {t.substr(0, t.size() - 1), t.substr(0, 1), t.substr(0, t.size() / 2)}; return p[tv % 3]; }
-    if (kind == "suffix") { const std::string p[] = {t.substr(1), t + "x", "x" + t, t + t}; return p[tv % 4]; }
+    if (kind == "prefix") {
+        // incl. prefixes whose length differs from the token's by a multiple of 256 (an 8-bit length comparison would miss them)
+        const std::string p[] = {t.substr(0, t.size() - 1), t.substr(0, 1), t.substr(0, t.size() / 2), t.size() >= 256 ? t.substr(0, t.size() - 256) : t.substr(0, 2),
+                                 t.size() >= 512 ? t.substr(0, t.size() - 512) : t.substr(0, 3)};
+        return p[tv % 5];
+    }
+    if (kind == "suffix") { const std::string p[] = {t.substr(1), t + "x", "x" + t, t + t, t + std::string(256, 'x'), t.size() >= 256 ? t.substr(256) : t.substr(t.size() - 1)}; return p[tv % 6]; }
     if (kind == "case") {
         std::string u = t, l = t, sw = t;
         for (auto& ch : u) ch = static_cast<char>(std::toupper(static_cast<unsigned char>(ch)));
